@@ -274,7 +274,10 @@ fn run_history(cfg: &HCfg, history: &[String]) -> StepOut {
                 let th = threads[t].as_ref().unwrap();
                 let vis = |l: u8, sp: &Vec<(usize, Vec<u8>)>| -> Vec<&'static str> { sp.iter().filter(|s| s.1.contains(&l)).map(|s| cs[s.0].meta.name).collect() };
                 // the reloadable filter belongs to layer 1 (or is global): its context is what layer 1 sees
-                let known: Vec<(usize, Vec<u8>)> = spans[t].iter().zip(seen_by_filter[t].iter()).filter(|(_, k)| **k).map(|(s, _)| s.clone()).collect();
+                // a span-scoped EnvFilter decides from its own record of entered spans (only those it saw);
+                // context-dependent closures ask the registry, which knows every span
+                let own_state = matches!(vals[cur], FilterD::EnvSp);
+                let known: Vec<(usize, Vec<u8>)> = spans[t].iter().zip(seen_by_filter[t].iter()).filter(|(_, k)| **k || !own_state).map(|(s, _)| s.clone()).collect();
                 let ctx: Vec<&'static str> = if cfg.kind == Kind::Global { known.iter().filter(|s| !s.1.is_empty()).map(|s| cs[s.0].meta.name).collect() } else { vis(1, &known) };
                 match p[1] {
                     "ev" => {
